@@ -161,6 +161,11 @@ func randPlat(r *mrand.Rand) *world.Platform {
 }
 
 func c13(x *mon.Ctx) {
+	if !x.Quick() {
+		defer func() {
+			x.Fuzz("FuzzSgxExt", 2000000)
+		}()
+	}
 	x.Level = "exploration"
 	x.Rule = "the harness DER-encodes the SGX extension itself, so the expected values are the generator's inputs. Exact class: every component position x every value 0..255, PCE SVN at boundaries (all 65536 in the thorough tier), all 120 orders of the five top-level elements, the 18 TCB elements reversed / all rotations / all adjacent swaps / random permutations, random byte contents; must-error class: integers out of range (256, 65536, negative, 9-byte), wrongly sized octet strings (not themselves a DER OCTET STRING of the right inner size), wrong ASN.1 types, missing SGX extension, truncations, trailing bytes at every nesting level, 17 / 19 TCB elements, fewer than 4 top-level elements, wrong number of certificate extensions; sane class (duplicates, an element replaced by a duplicate of another): no panic and every element present exactly once is exact. 500 cases also through really signed, re-parsed certificates. distinct = distinct labelled extension value."
 	var cases []*xcase
